@@ -855,6 +855,11 @@ def game_methods_used(prog: Program, pid: str) -> set[str]:
                 operand = n.operand if isinstance(n, ast.UnaryOp) else n.left
                 if isinstance(operand, ast.Name) and "game" in operand.id.lower():
                     used.add(_OPERATOR_METHODS[type(op)])
+    # a property that states linearity / negation / sums of games runs the arithmetic of the game object
+    from .hygiene import _property_text
+    text = _property_text(pid)
+    if any(w in text for w in ("linear", "negat", "sum of two games", "sum of games")):
+        used |= {m for m in ("__neg__", "__add__", "copy", "__eq__") if m in names}
     # closure over self-calls inside the class
     grew = True
     while grew:
